@@ -163,6 +163,47 @@ pub fn craft_frame(base: &Base, fi: usize, recode: bool, rng: &mut Rng) -> Vec<u
     fr
 }
 
+/// The UTF-8-like code of `v` (canonical: the shortest form), 1..=7 bytes, up to 36 payload bits.
+pub fn utf8like(v: u64) -> Vec<u8> {
+    if v < 0x80 {
+        return vec![v as u8];
+    }
+    let mut len = 2;
+    while len < 7 && v >= 1u64 << (5 * len + 1) {
+        len += 1;
+    }
+    let lead_bits = 7 - len;
+    let lead_mask: u8 = (0xFFu16 << (8 - len)) as u8;
+    let mut out = vec![lead_mask | ((v >> (6 * (len - 1))) as u8 & (((1u16 << lead_bits) - 1) as u8))];
+    for k in (0..len - 1).rev() {
+        out.push(0x80 | ((v >> (6 * k)) as u8 & 0x3F));
+    }
+    out
+}
+
+/// Re-writes an emitted (fixed-blocksize) stream as the equivalent VARIABLE-blocksize stream:
+/// blocking-strategy bit set in every frame, the coded frame number replaced by the number of the
+/// frame's first sample (+ `offset`, to reach long codes), CRC-8 and CRC-16 recomputed. `sizes` are
+/// the block sizes of the frames. With `break_at = Some(i)` frame i states a wrong start sample.
+pub fn variable_blocking(base: &Base, sizes: &[usize], offset: u64, break_at: Option<usize>) -> Vec<u8> {
+    let mut out = base.bytes[..base.audio_offset].to_vec();
+    let mut start = offset;
+    for (fi, (&(o, l), &(hl, nl))) in base.frames.iter().zip(base.hdr.iter()).enumerate() {
+        let mut fr: Vec<u8> = base.bytes[o..o + 4].to_vec();
+        fr[1] |= 1;
+        let stated = if break_at == Some(fi) { start + 1 } else { start };
+        fr.extend_from_slice(&utf8like(stated));
+        fr.extend_from_slice(&base.bytes[o + 4 + nl..o + hl - 1]);
+        fr.push(refdec::crc8(&fr));
+        fr.extend_from_slice(&base.bytes[o + hl..o + l - 2]);
+        let c16 = refdec::crc16(&fr);
+        fr.extend_from_slice(&c16.to_be_bytes());
+        out.extend_from_slice(&fr);
+        start += sizes[fi] as u64;
+    }
+    out
+}
+
 #[derive(Debug, PartialEq, Eq)]
 pub enum Parsed {
     Err,
